@@ -12,6 +12,7 @@ import (
 	"time"
 
 	netty "github.com/go-netty/go-netty"
+	"github.com/go-netty/go-netty/codec/frame"
 	"github.com/go-netty/go-netty/utils"
 	"pgregory.net/rapid"
 
@@ -33,6 +34,9 @@ type C08Case struct {
 	// Packet: the inbound messages are []byte packets (one per cut: what a packet transport or a chunk-delivering handler
 	// such as the variable-length codec hands on), each inside a larger reused buffer that still holds older bytes
 	Packet bool `json:"packet,omitempty"`
+	// Nested: the stream is the content of one frame of an outer varint-length codec (an envelope), followed by other
+	// bytes; the decoder under test sits behind that outer decoder and must not look past the envelope
+	Nested bool `json:"nested,omitempty"`
 	Zero   int  `json:"zero,omitempty"` // every Zero-th transport read returns (0, nil) (not for the varlen decoder, which hands an empty read on)
 }
 
@@ -217,7 +221,9 @@ func genC08(t *rapid.T) C08Case {
 	c.Consume = rapid.SampledFrom([]string{"", "", "copy", "tobytes"}).Draw(t, "consume")
 	if !c.Channel {
 		c.Zero = rapid.SampledFrom([]int{0, 0, 0, 2, 3, 7}).Draw(t, "zero")
-		if rapid.IntRange(0, 5).Draw(t, "packet") == 0 {
+		if rapid.IntRange(0, 6).Draw(t, "nested") == 0 && len(c.Stream) > 0 && len(c.Stream) < 60000 {
+			c.Nested, c.Zero = true, 0
+		} else if rapid.IntRange(0, 5).Draw(t, "packet") == 0 {
 			c.Packet, c.Zero = true, 0
 			if len(c.Cuts) == 0 {
 				c.Cuts = []int{imax(1, len(c.Stream)/2)}
@@ -445,6 +451,9 @@ func runC08(c C08Case) (out core.Outcome) {
 		return core.Outcome{Inconclusive: "bad case: park needs the channel layer"}
 	}
 
+	if c.Nested {
+		return runC08Nested(c, dec, cls, out)
+	}
 	if c.Packet {
 		return runC08Packets(c, dec, cls, out)
 	}
@@ -511,6 +520,61 @@ func runC08(c C08Case) (out core.Outcome) {
 		return
 	}
 	return
+}
+
+// runC08Nested: two frame codecs stacked. The outer varint-length decoder delivers the envelope (c.Stream) as one
+// message; the decoder under test reads its first frame from that message. For it the envelope is the whole stream:
+// a frame that needs more than the envelope holds is truncated, whatever follows the envelope on the connection.
+func runC08Nested(c C08Case, dec netty.InboundHandler, cls *core.ClassSet, out core.Outcome) core.Outcome {
+	cd := c.Codec
+	cls.Add("nested-behind-varint-envelope")
+	outer := frame.VarintLengthFieldCodec(len(c.Stream) + 16)
+	wire1 := binary.AppendUvarint(nil, uint64(len(c.Stream)))
+	wire1 = append(wire1, c.Stream...)
+	// what follows the envelope on the connection: bytes that would complete an over-long inner frame nicely
+	wire1 = append(wire1, bytes.Repeat([]byte{3, 'X', 'Y', 'Z', 0, 0, 0, 1}, 40)...)
+	fr := &wire.Fragmenter{Data: wire1, Cuts: c.Cuts, End: "eof"}
+	ref := cd.RefDecode(c.Stream, false)
+	var deliveries []c08Consumed
+	inner := &mock.Ctx{OnRead: func(m netty.Message) { deliveries = append(deliveries, consumeMessageAs(m, c.Consume)) }}
+	var innerPanic interface{}
+	outerCtx := &mock.Ctx{OnRead: func(m netty.Message) {
+		innerPanic = mock.Catch(func() { dec.HandleRead(inner, m) })
+	}}
+	if pv := mock.Catch(func() { outer.HandleRead(outerCtx, fr) }); pv != nil {
+		out.Inconclusive = fmt.Sprintf("nested: the outer decoder raised %v on a well-formed envelope", pv)
+		return out
+	}
+	if re, ok := innerPanic.(runtime.Error); ok {
+		out.Violation = core.Viol("C08/runtime-fault:"+cd.Kind, "nested: decoder failed with a runtime error: %v", re)
+		return out
+	}
+	if len(deliveries) > 1 {
+		out.Violation = core.Viol("C08/multiple-deliveries:"+cd.Kind, "nested: %d messages delivered by one HandleRead", len(deliveries))
+		return out
+	}
+	if len(deliveries) == 1 {
+		d := deliveries[0]
+		if d.err != nil && !errors.Is(d.err, io.EOF) {
+			cls.Add("consumer-read-error")
+			return out
+		}
+		if v := judgeDelivery(cd, ref, true, d); v != nil {
+			v.Msg = "behind an outer varint envelope of " + fmt.Sprint(len(c.Stream)) + " bytes: " + v.Msg
+			out.Violation = v
+			return out
+		}
+		cls.Add("delivered-ok")
+		return out
+	}
+	if innerPanic != nil {
+		cls.Add("raised:%s", ref.Status)
+		if ref.Status == wire.Truncated {
+			cls.Add("nested-frame-longer-than-envelope-raised")
+			out.NonTrivial = true
+		}
+	}
+	return out
 }
 
 // runC08Packets: every inbound message is a []byte packet; a frame is complete only if the packet holds all of it.
